@@ -870,8 +870,21 @@ class Models:
             return Sym(K.Int, P.ufn(f'{a[0]}', [vt.sort()], z3.IntSort())(vt))
         return Builtin('prims.lib_bytes', f)
 
+    def x_pyvc_prims_lib_text(self):
+        def f(ex_, a, k):
+            vt = lib_val(ex_, a[1])
+            return Sym(K.Str, P.ufn(f'{a[0]}', [vt.sort()], z3.StringSort())(vt))
+        return Builtin('prims.lib_text', f)
+
     def x_pyvc_prims_lib_load(self):
         return Builtin('prims.lib_load', lambda ex_, a, k: Sym(K.U('Val', plain=True), P.ufn(f'{a[0]}', [z3.IntSort()], K.U('Val').sort())(P.int_t(ex_, a[1]))))
+
+    def x_pyvc_prims_seq_fold(self):
+        from . import loops
+        return Builtin('prims.seq_fold', lambda ex_, a, k: loops.seq_fold(ex_, a[0], a[1], a[2]))
+
+    def x_pyvc_prims_str_strip(self):
+        return Builtin('prims.str_strip', lambda ex_, a, k: self.s_strip(a[0]))
 
     def x_pyvc_prims_implies(self):
         def imp(ex_, a, k):
@@ -1139,6 +1152,8 @@ PY_TYPE_OF_KIND = {'Str': 'str', 'Int': 'int', 'Bool': 'bool', 'Path': 'pathlib.
 
 
 def isinstance_(ex, v, t):
+    if isinstance(t, ModuleVal) and isinstance(t.mi, tuple):
+        t = ClassVal(t.mi)      # an external class the models do not know more about
     if isinstance(t, tuple):
         acc = False
         for x in t:
